@@ -218,6 +218,16 @@ Theorem C09_exp_flag_follows_own_grid :
 Proof. exact (conj gen_private_exp_true (conj exp_flag_consistent_gen (proj1 shared_module_breaks_consistency))). Qed.
 Print Assumptions C09_exp_flag_follows_own_grid.
 
+(* 12. Accessor copies (ac06f87, 91d1617; read from the source: gen_accessor_private): a transform obtained
+       through grid(g) or data(arg) has its own _parameters dict, so a later data_() on the original is not
+       seen by it and data(arg) does not touch the original; a plain shallow copy, condition(...) and
+       inverse() keep sharing the original's Parameter (witnesses on the executable instance, in the order:
+       grid(g) copy keeps the old parameters; data(arg) copy holds arg; the original follows its own data_;
+       copy / condition / inverse follow the original's data_). *)
+Theorem C09_accessor_copies_independent : gen_accessor_private = true /\ accessor_witness = true.
+Proof. exact (conj accessor_private_ok accessor_witness_ok). Qed.
+Print Assumptions C09_accessor_copies_independent.
+
 (* non-vacuity: the hypotheses of 1, 2 and 4 are met by concrete reachable states of the executable
    instance, and the conclusions are observed there (including the two repaired cases: a B-spline model
    with callable parameters after grid_, a dense model moved to a grid differing only in align_corners) *)
